@@ -67,6 +67,27 @@ def _one_mtu(args):
     return rows
 
 
+def _limits(args):
+    """Limits after histories of setMTU calls ending in mtu (fresh interpreter state per history: defaults restored first)."""
+    mtus, seed = args
+    import random
+    import impl
+    C = impl.mod("connection")
+    rnd = random.Random(seed)
+    out, hist = [], []
+    for m in mtus:
+        for h in ([m], [576, m], [1500, m], [m, m], [512, 1095, m], [rnd.randint(512, 1500), rnd.randint(512, 1500), m]):
+            C.Packet.setMTU(1500)
+            C.Packet.MAX_FRAGMENT_SIZE = 1024       # the module's load-time defaults
+            for x in h:
+                C.Packet.setMTU(x)
+            P = C.Packet
+            out.append([m, P.MAX_PAYLOAD_SIZE, P.MAX_FRAGMENT_SIZE, P.MAX_SIZE, P.RECV_SIZE])
+            hist.append(h)
+    C.Packet.setMTU(1500)
+    return out, hist
+
+
 def model(ctx):
     cfg = "INIT Init\nNEXT Next\nCONSTANT MaxFragments = 8192\nINVARIANT SumOK\nINVARIANT NotStuck\nINVARIANT SizeOK\nINVARIANT NotFragmented\nCHECK_DEADLOCK FALSE\n"
     r = ctx.mc("Packing", cfg, label="Packing: every MTU 512..1500 x boundary lengths", coverage=False)
@@ -84,7 +105,9 @@ def grid(ctx, mine, mtus):
     wd = T.workdir("pk")
     try:
         path = os.path.join(wd, "obs.json")
-        open(path, "w").write(json.dumps([{k: v for k, v in r.items() if k != "err"} for r in rows]))
+        lim, hist = _limits((sorted(set(mtus) | {512, 600, 1000, 1095, 1096, 1500}), ctx.seed))
+        open(path, "w").write(json.dumps(dict(rows=[{k: v for k, v in r.items() if k != "err"} for r in rows], limits=lim)))
+        ctx.extra["setmtu_histories"] = len(lim)
         r = ctx.mc("Obs_Packing", "INIT OInit\nNEXT ONext\nCONSTANT MaxFragments = 8192\nINVARIANT AllOK\nALIAS Where\nCHECK_DEADLOCK FALSE\n", env=dict(OBS_FILE=path),
                    label="Obs_Packing (%d rows, %d MTUs)" % (len(rows), len(mtus)), coverage=False, cont=True, heap="6g")
         ctx.extra["packing_grid_rows"] = len(rows)
@@ -99,6 +122,11 @@ def grid(ctx, mine, mtus):
                 raise Machinery("Obs_Packing judge failed: %s" % r.violation["text"][:1500])
             n = 0
             for tr in r.traces:
+                for bl in to_json(T.materialise(tr[-1]).get("badlimits", []))[:3]:
+                    n += 1
+                    hs = [h for x, h in zip(lim, hist) if x == bl]
+                    ctx.fail("after Packet.setMTU calls %s the limits are MAX_PAYLOAD_SIZE=%d MAX_FRAGMENT_SIZE=%d MAX_SIZE=%d RECV_SIZE=%d, not those of MTU %d" % (hs[:1], bl[1], bl[2], bl[3], bl[4], bl[0]),
+                             dict(kind="limits", history=hs[:1], limits=bl))
                 for b in to_json(T.materialise(tr[-1]).get("bad", []))[:3]:
                     n += 1
                     ctx.fail("payload of %d bytes at MTU %d: queued as messages %s, delivered client->server=%s server->client=%s, largest datagram %s (limit %s), left queued %s %s"
